@@ -358,21 +358,25 @@ def run_harness_watched(args, out_trace, timeout=3000):
     if p.returncode == 0:
         return p.stdout, False
     how = "hang" if p.returncode == 3 else "abort (exit status %d)" % p.returncode
-    if p.returncode != 3:
-        if p.returncode > 0:
-            log(p.stderr[-2000:])
-            raise ToolError("harness %s exited %d" % (args[0], p.returncode))
-        keep = out_trace + ".partial"
-        if os.path.exists(out_trace):
-            os.replace(out_trace, keep)
-        p2 = subprocess.run([HARNESS] + args + ["--watch", wf, "--sync"], stdout=subprocess.PIPE,
-                            stderr=subprocess.PIPE, text=True, timeout=timeout * 4)
-        if p2.returncode == 0:
-            raise ToolError("harness %s crashed once (%d) but not when re-run" % (args[0], p.returncode))
+    if p.returncode > 0 and p.returncode != 3 or p.returncode in (-9, -15):
+        # a harness error, or killed from outside (out of memory, timeout): not the code under test
+        log(p.stderr[-2000:])
+        raise ToolError("harness %s exited %d" % (args[0], p.returncode))
+    # the normal mode does not say which call was running: run again, writing every call down before it starts
+    keep = out_trace + ".partial"
+    if os.path.exists(out_trace):
+        os.replace(out_trace, keep)
+    p2 = subprocess.run([HARNESS] + args + ["--watch", wf, "--sync"], stdout=subprocess.PIPE,
+                        stderr=subprocess.PIPE, text=True, timeout=timeout * 4)
+    if p2.returncode == 0:
+        raise ToolError("harness %s stopped once (%d) but not when re-run" % (args[0], p.returncode))
     if not os.path.exists(wf):
         raise ToolError("harness %s: %s without a watch record" % (args[0], how))
     line = open(wf).read().strip()
-    ev = json.loads(line)
+    try:
+        ev = json.loads(line)
+    except ValueError:
+        raise ToolError("harness %s: %s with an unreadable watch record" % (args[0], how))
     ev["how"] = how
     # keep the complete lines of the partial trace, then the crash event
     good = []
